@@ -92,10 +92,12 @@ func builtinNumberToPrecision(call FunctionCall) Value {
 }
 
 func builtinNumberIsNaN(call FunctionCall) Value {
-	if len(call.ArgumentList) < 1 {
+	// Number.isNaN does not coerce: only a Number value that is NaN qualifies (ES2015 20.1.2.4).
+	value := call.Argument(0)
+	if !value.IsNumber() {
 		return boolValue(false)
 	}
-	return boolValue(call.Argument(0).IsNaN())
+	return boolValue(value.IsNaN())
 }
 
 func builtinNumberToLocaleString(call FunctionCall) Value {
